@@ -1,12 +1,17 @@
 /-
 Driver for C13 (I/O failures are never hidden; no temporary files remain).
 
-Input `x <conc> <chunk> <ac> <aclean> <i|s> <ops> <sched> <fault>` (see `MorassWire`).
+Input `x <conc> <chunk> <ac> <aclean> <i|s> <ops> <sched> <fault> [<opts>]` (see `MorassWire`).
 (1) runs the labelled transition system with the fault oracle under the forced schedule;
 (2) evaluates the statement on the implementation's observation:
     * if every call of the program returned success (nil or io.EOF) then the outputs satisfy the
       statement of C11 — the sorter never reports success throughout while delivering fewer or
       different values than were pushed; a program that never returns is a failure, too;
+    * the same again for what follows every recovery (a reported I/O error, then a successful
+      `Clear`): the rest of the program on the recovered sorter (`recoveryStatement`) — a second
+      failure must be reported, too;
+    * a sorter abandoned with `CleanUp` (ops end with `u`) while chunk writers are in flight: when
+      everything has stopped the temporary directory does not exist;
     * after CleanUp the temporary directory does not exist; after a fault-free history whose
       last cycle was pulled to io.EOF the directory does not exist if AutoClean is set and
       holds no run file if AutoClear is set;
@@ -38,6 +43,46 @@ def surfaceStatement (ac : Bool) (h : List Cycle) (ops : List Op) (outs : List O
   else if firstBad.isSome then none
   else (Biogo.Drive.C11.programStatement ac h ops outs).map (fun why => s!"success-reported-throughout-but:{why}")
 
+def notOk (o : Out) : Bool := o.res != .ok && o.res != .eof && o.res != .rejected
+
+/-- The program and the outputs that follow the first recovery: the first call that did not
+    succeed returned an I/O error, the caller made no call until its next `Clear`, and that
+    `Clear` succeeded.  `none` = no (such) recovery. -/
+def afterRecovery (ops : List Op) (outs : List Out) : Option (List Op × List Out) :=
+  match outs.findIdx? notOk with
+  | none => none
+  | some i =>
+    if (outs[i]?.map (·.res)) != some .ioerr then none else
+    match (ops.drop (i + 1)).dropWhile (· != Op.clear), outs.drop (i + 1) with
+    | .clear :: ops', oc :: outs' => if oc.res == .ok then some (ops', outs') else none
+    | _, _ => none
+
+/-- The executable statement "a failure after a recovery is not hidden either": after a reported
+    I/O error and the `Clear` with which the caller recovered, the rest of the program — again a
+    well-formed history, on a sorter that `Clear` has reset — satisfies `surfaceStatement`, and so
+    on after every further recovery.  `none` = holds.  (`n` = fuel: the number of outputs.)
+    Proved sound in `Properties/C13_recovery.lean` (`recoveryStatement_sound`). -/
+def recoveryStatement (ac : Bool) : Nat → List Op → List Out → Option String
+  | 0, _, _ => none
+  | n + 1, ops, outs =>
+    match afterRecovery ops outs with
+    | none => none
+    | some (ops', outs') =>
+      match Biogo.Morass.historyOf ac (Biogo.Morass.dropRejects ops') with
+      | none => none
+      | some h' =>
+        match surfaceStatement ac h' ops' outs' with
+        | some why => some s!"after-recovery:{why}"
+        | none => recoveryStatement ac n ops' outs'
+
+/-- The executable statement for a sorter abandoned with `CleanUp`: the caller returned from every
+    call, and when every goroutine has stopped the temporary directory does not exist (`dir` is
+    the listing taken then: "1" = it exists). -/
+def abandonStatement (st dir : String) : Option String :=
+  if st ≠ "done" then some "the-program-never-returned"
+  else if dir ≠ "0" then some "abandoned-sorter-leaves-its-directory-behind"
+  else none
+
 def handleTokens (inp : List String) (obs : String) : Verdict :=
   match inp with
   | "x" :: rest =>
@@ -56,20 +101,39 @@ def handleTokens (inp : List String) (obs : String) : Verdict :=
         | _ => s
       let m := maskDisk (modelRender r)
       let impl := maskDisk (implRender implToks)
-      let fired := w.flt.isSome && r.final.flt.isNone
+      let fired := decide (r.final.flt.length < w.flt.length)
+      let allFired := !w.flt.isEmpty && r.final.flt.isEmpty
+      let recovered := (afterRecovery w.ops r.outs).isSome
       -- the cycle in which the failure surfaced (model): Clear calls completed before it
       let firstErr := r.outs.findIdx? (fun o => o.res == .ioerr)
       let errCycle : List String := match firstErr with
         | some i => [s!"error-in-cycle{min (((w.ops.take i).filter (· == Op.clear)).length + 1) 3}"]
         | none => []
       let tags := errCycle ++ [if w.conc then "concurrent" else "sequential",
-                   match w.flt with | some (p, _) => "fault-" ++ (reprStr p).replace "Biogo.MorassConc.Pt." "" | none => "no-fault"]
+                   match w.flt with | (p, _) :: _ => "fault-" ++ (reprStr p).replace "Biogo.MorassConc.Pt." "" | [] => "no-fault"]
+                  ++ (match w.flt with | _ :: (p, _) :: _ => ["two-faults", "second-fault-" ++ (reprStr p).replace "Biogo.MorassConc.Pt." ""] | _ => [])
                   ++ (if fired then ["fault-fired", "nt"] else [])
+                  ++ (if recovered then ["recovered"] else [])
+                  ++ (if recovered && allFired && w.flt.length ≥ 2 then ["second-fault-fired-after-recovery"] else [])
+                  ++ (if w.reuse then ["reuse"] else [])
+                  ++ (if w.abandon then ["abandon"] ++ (if r.inflight > 0 then ["abandon-writers-in-flight", "nt"] else []) else [])
                   ++ (if w.aclean then ["autoclean"] else []) ++ (if w.ac then ["autoclear"] else [])
+      -- an abandoned sorter: the statement about the directory comes first (the program need not
+      -- be a whole history)
+      let abandonFail : Option String :=
+        if !w.abandon || w.chunk = 0 then none else
+        if obs == "crash" || obs.startsWith "panic" then some "harness-process-or-goroutine-panicked"
+        else if obs == "hang" then some "hang"
+        else match implToks with
+          | _ :: st :: _ :: dir :: _ => abandonStatement st dir
+          | _ => some "unparsable-observation"
+      match abandonFail with
+      | some why => fail why tags
+      | none =>
       match Biogo.Morass.historyOf w.ac (Biogo.Morass.dropRejects w.ops) with
       | none => if m == impl then ok (tags ++ ["illformed"]) else diff m (tags ++ ["illformed"])
       | some h =>
-        let tags := tags ++ (if w.flt.isNone && lastDrained h && (w.ac || w.aclean) then ["nt", "residue"] else [])
+        let tags := tags ++ (if w.flt.isEmpty && lastDrained h && (w.ac || w.aclean) then ["nt", "residue"] else [])
         if obs == "crash" || obs.startsWith "panic" then fail "harness-process-or-goroutine-panicked" tags
         else if obs == "hang" then fail "hang" tags
         else if w.chunk = 0 then (if m == impl then ok tags else diff m tags)
@@ -82,12 +146,13 @@ def handleTokens (inp : List String) (obs : String) : Verdict :=
             | none => fail "unparsable-observation" tags
             | some outs =>
               let reported := reported outs
-              match surfaceStatement w.ac h w.ops outs with
+              match (surfaceStatement w.ac h w.ops outs).orElse
+                      (fun _ => recoveryStatement w.ac outs.length w.ops outs) with
               | some why => fail why tags
               | none =>
-                if w.flt.isNone && !reported && lastDrained h && w.aclean && dir ≠ "0" then
+                if w.flt.isEmpty && !reported && lastDrained h && w.aclean && dir ≠ "0" then
                   fail "autoclean-drain-leaves-the-directory" tags
-                else if w.flt.isNone && !reported && lastDrained h && w.ac && dir == "1" && disk ≠ "0" then
+                else if w.flt.isEmpty && !reported && lastDrained h && w.ac && dir == "1" && disk ≠ "0" then
                   fail "autoclear-drain-leaves-run-files" tags
                 else if m == impl then ok tags else diff m tags
           | _ => fail "unparsable-observation" tags
